@@ -112,6 +112,23 @@ class Thm:
         for t in list(self.hyps) + [self.prop]:
             if t.checked_get_type() != BoolType:
                 raise term.TypeCheckException('expect boolean type for propositions')
+            # The constants of the logic must be used at instances of their types:
+            # the rules treat any constant named "equals" (resp. "implies", "all") as
+            # equality (implication, universal quantification).
+            for c in t.get_consts():
+                if c.name == "equals":
+                    ok = c.T.is_fun() and len(c.T.args) == 2 and \
+                        c.T.args[1] == TFun(c.T.args[0], BoolType)
+                elif c.name == "implies":
+                    ok = c.T == TFun(BoolType, BoolType, BoolType)
+                elif c.name == "all":
+                    ok = c.T.is_fun() and len(c.T.args) == 2 and c.T.args[1] == BoolType and \
+                        c.T.args[0].is_fun() and len(c.T.args[0].args) == 2 and \
+                        c.T.args[0].args[1] == BoolType
+                else:
+                    ok = True
+                if not ok:
+                    raise term.TypeCheckException('logical constant %s used at type %s' % (c.name, c.T))
 
     def is_equals(self):
         """Check whether the proposition of the theorem is of the form x = y."""
